@@ -118,6 +118,15 @@ def _alarm(_sig, _frm):
     raise CaseTimeout()
 
 
+def scale() -> float:
+    """VERIF_SCALE (default 1): multiplies the number of generated cases and the non-triviality floor - used to smoke-test
+    the thorough tier's code paths in minutes (`VERIF_SCALE=0.03 ./check C01 --tier thorough`)."""
+    try:
+        return max(0.001, float(os.environ.get("VERIF_SCALE", "1")))
+    except ValueError:
+        return 1.0
+
+
 def hyp_run(body: Callable[[Any], None], strategy, n_distinct: int, seedv: int, key=None, col: "Collector" = None):
     """Run a Hypothesis generation phase deterministically until `n_distinct` distinct cases (by key, default the
     whole case) have been passed to body; body records failures itself. Hypothesis' generate phase spends most
@@ -129,6 +138,7 @@ def hyp_run(body: Callable[[Any], None], strategy, n_distinct: int, seedv: int, 
     from hypothesis.errors import HypothesisWarning
 
     warnings.simplefilter("ignore", HypothesisWarning)
+    n_distinct = max(1, int(n_distinct * scale()))
     seen = set()
     state = {"stop": False}
     keyf = key or (lambda c: c)
@@ -430,7 +440,7 @@ def main(argv=None):
         "%s tier=%s seed=%d evaluations=%d distinct_nontrivial=%d buckets=%d wall=%.1fs"
         % (pid, tier, seedv, evaluations, len(nontrivial), len(failures), wall)
     )
-    need = getattr(mod, "MIN_NONTRIVIAL", {}).get(tier, 2)
+    need = max(1, int(getattr(mod, "MIN_NONTRIVIAL", {}).get(tier, 2) * scale()))
     if violations:
         for b, f, rpath in violations:
             print("  bucket %s (x%d): %s" % (b, f["count"], f["detail"][:400].replace("\n", " | ")))
